@@ -363,7 +363,7 @@ package workflow
 //@        nodeitem(result).(*DAGItem).Kind == DagItemKindDependencyGroup && nodeitem(result).(*DAGItem).Data == nil
 //@   ensures [adds-one-node] forall d any, k string :: indag(d, k) != old(indag(d, k)) ==> d == dag && !old(indag(d, k)) && k == nodeid(currentNode) + "." + callres(strings.Join, 1, 0)
 //@   ensures [adds-one-dependency] forall d any, t string, f string :: dep(d, t, f) != old(dep(d, t, f)) ==> \
-//@        d == dag && t == nodeid(currentNode) && f == nodeid(currentNode) + "." + callres(strings.Join, 1, 0) && dep(d, t, f) == dependencyType && result1 == nil
+//@        d == dag && t == nodeid(currentNode) && f == nodeid(currentNode) + "." + callres(strings.Join, 1, 0) && dep(d, t, f) == dependencyType && result1 == nil && old(dep(d, t, f)) == ""
 //
 // refnode(p): the graph node a dependency path into $.steps refers to: the stage node for
 // $.steps.<step>.<stage>, the output node for $.steps.<step>.<stage>.<output>[...].
@@ -380,3 +380,142 @@ package workflow
 //@   loop 1 invariant forall j int :: 0 <= j && j <= rangeidx ==> refEdge(dag, nodeid(currentNode), dependencies[j])
 //@   loop 1 invariant forall d any, t string, f string :: dep(d, t, f) != old(dep(d, t, f)) ==> \
 //@        d == dag && t == nodeid(currentNode) && old(dep(d, t, f)) == "" && dep(d, t, f) == "and"
+//
+// Nothing that is in the graph is ever removed or changed while dependencies are prepared.
+//@ pred onlyAdds() = (forall d any, k string :: old(indag(d, k)) ==> indag(d, k)) && \
+//@     (forall d any, t string, f string :: old(dep(d, t, f)) != "" ==> dep(d, t, f) == old(dep(d, t, f)))
+//
+//@ func (*executor).prepareOptionalExprDependencies
+//@   requires e != nil && e.logger != nil && expr != nil && expr.Expr != nil && currentNode != nil && dag != nil && nodedag(currentNode) == dag
+//@   modifies expr.GroupNodePath, expr.ParentNodePath, ghost indag, ghost dep, ghost nodestatus
+//@   ensures [an-optional-field-hangs-on-its-own-group-node] result == nil ==> expr.ParentNodePath == nodeid(currentNode) && indag(dag, expr.GroupNodePath) && \
+//@        dep(dag, nodeid(currentNode), expr.GroupNodePath) == ite(expr.WaitForCompletion, "completion-and", "optional")
+//@   ensures [the-source-expression-feeds-the-group-node] result == nil ==> called(prepareExprDependencies, 1) && callarg(prepareExprDependencies, 1, 1) == expr.Expr && \
+//@        nodeid(callarg(prepareExprDependencies, 1, 3)) == expr.GroupNodePath && callres(prepareExprDependencies, 1, 0) == nil
+//@   ensures [nothing-is-removed] (forall d any, k string :: old(indag(d, k)) ==> indag(d, k)) && \
+//@        (forall d any, t string, f string :: old(dep(d, t, f)) != "" ==> dep(d, t, f) == old(dep(d, t, f)))
+//
+//@ func (*executor).prepareDependencies
+//@   requires e != nil && e.logger != nil && currentNode != nil && dag != nil && nodedag(currentNode) == dag
+//@   modifies ghost indag, ghost dep, ghost nodestatus, fields infer.OneOfExpression, fields infer.OptionalExpression, slice pathInCurrentNode
+//@   ensures [nothing-is-removed] (forall d any, k string :: old(indag(d, k)) ==> indag(d, k)) && \
+//@        (forall d any, t string, f string :: old(dep(d, t, f)) != "" ==> dep(d, t, f) == old(dep(d, t, f)))
+//@   ensures [graph-identity-kept] nodedag(currentNode) == dag
+//@   loop 1 invariant (forall d any, k string :: old(indag(d, k)) ==> indag(d, k)) && (forall d any, t string, f string :: old(dep(d, t, f)) != "" ==> dep(d, t, f) == old(dep(d, t, f)))
+//@   loop 2 invariant (forall d any, k string :: old(indag(d, k)) ==> indag(d, k)) && (forall d any, t string, f string :: old(dep(d, t, f)) != "" ==> dep(d, t, f) == old(dep(d, t, f)))
+//
+//@ func (*executor).prepareOneOfExprDependencies
+//@   requires e != nil && e.logger != nil && expr != nil && currentNode != nil && dag != nil && nodedag(currentNode) == dag
+//@   modifies ghost indag, ghost dep, ghost nodestatus, fields infer.OneOfExpression, fields infer.OptionalExpression, slice pathInCurrentNode
+//@   site range#1 assert [the-oneof-remembers-its-node] expr.NodePath == nodeid(oneofDagNode) && indag(dag, expr.NodePath) && dep(dag, nodeid(currentNode), expr.NodePath) == "and"
+//@   ensures [a-oneof-hangs-on-its-own-node] result == nil ==> called(createGroupNode, 1) && callres(createGroupNode, 1, 1) == nil && \
+//@        indag(dag, nodeid(callres(createGroupNode, 1, 0))) && dep(dag, nodeid(currentNode), nodeid(callres(createGroupNode, 1, 0))) == "and"
+//@   ensures [every-option-is-an-or-dependency-of-the-oneof-node] result == nil ==> (forall o string :: indom(old(expr.Options), o) ==> \
+//@        indag(dag, nodeid(callres(createGroupNode, 1, 0)) + "." + o) && \
+//@        dep(dag, nodeid(callres(createGroupNode, 1, 0)), nodeid(callres(createGroupNode, 1, 0)) + "." + o) == "or")
+//@   ensures [nothing-is-removed] (forall d any, k string :: old(indag(d, k)) ==> indag(d, k)) && \
+//@        (forall d any, t string, f string :: old(dep(d, t, f)) != "" ==> dep(d, t, f) == old(dep(d, t, f)))
+//@   loop 1 invariant forall o string :: visited(o) ==> indag(dag, nodeid(oneofDagNode) + "." + o) && dep(dag, nodeid(oneofDagNode), nodeid(oneofDagNode) + "." + o) == "or"
+//@   loop 1 invariant (forall d any, k string :: old(indag(d, k)) ==> indag(d, k)) && (forall d any, t string, f string :: old(dep(d, t, f)) != "" ==> dep(d, t, f) == old(dep(d, t, f)))
+//@   loop 1 invariant indag(dag, nodeid(oneofDagNode)) && dep(dag, nodeid(currentNode), nodeid(oneofDagNode)) == "and" && \
+//@        oneofDagNode != nil && nodedag(oneofDagNode) == dag && oneofDagNode == callres(createGroupNode, 1, 0)
+//
+// ---- nodes of the steps ----
+//@ pure outputnode(o string) string = sprintf("outputs.%s", any(o))
+//@ func (DAGItem).String
+//@   requires d.Kind == DAGItemKindInput || d.Kind == DAGItemKindOutput || d.OutputID != "" || d.StageID != ""
+//@   ensures d.Kind == DAGItemKindInput ==> result == "input"
+//@   ensures d.Kind == DAGItemKindOutput ==> result == outputnode(d.OutputID)
+//@   ensures d.Kind != DAGItemKindInput && d.Kind != DAGItemKindOutput && d.OutputID != "" ==> result == outnode(d.StepID, d.StageID, d.OutputID)
+//@   ensures d.Kind != DAGItemKindInput && d.Kind != DAGItemKindOutput && d.OutputID == "" ==> result == stagenode(d.StepID, d.StageID)
+//
+//@ pred outItem(it *DAGItem, s string, g string, o string) = it != nil && allocated(it) && it.Kind == DAGItemKindStepStageOutput && it.StepID == s && it.StageID == g && it.OutputID == o && it.Data == nil
+//@ pred stageItem(it *DAGItem, s string, g string) = it != nil && allocated(it) && it.Kind == DAGItemKindStepStage && it.StepID == s && it.StageID == g && it.OutputID == ""
+//
+//@ func (*executor).addOutputProperties
+//@   requires dag != nil && stepNode != nil && nodedag(stepNode) == dag && stageOutputProperties != nil && stage.ID != "" && stepID != ""
+//@   requires forall o string :: indom(stage.Outputs, o) ==> stage.Outputs[o] != nil
+//@   modifies ghost indag, ghost dep, ghost nodestatus, map stageOutputProperties
+//@   ensures [every-declared-output-gets-a-node-below-its-stage] result1 == nil ==> (forall o string :: indom(stage.Outputs, o) && o != "" ==> \
+//@        indag(dag, outnode(stepID, stage.ID, o)) && dep(dag, outnode(stepID, stage.ID, o), nodeid(stepNode)) == "and" && \
+//@        typeis(nodeitem(dagnode(dag, outnode(stepID, stage.ID, o))), *DAGItem) && outItem(nodeitem(dagnode(dag, outnode(stepID, stage.ID, o))).(*DAGItem), stepID, stage.ID, o))
+//@   ensures [nothing-is-removed] (forall d any, k string :: old(indag(d, k)) ==> indag(d, k)) && \
+//@        (forall d any, t string, f string :: old(dep(d, t, f)) != "" ==> dep(d, t, f) == old(dep(d, t, f)))
+//@   loop 1 invariant forall o string :: visited(o) && o != "" ==> \
+//@        indag(dag, outnode(stepID, stage.ID, o)) && dep(dag, outnode(stepID, stage.ID, o), nodeid(stepNode)) == "and" && \
+//@        typeis(nodeitem(dagnode(dag, outnode(stepID, stage.ID, o))), *DAGItem) && outItem(nodeitem(dagnode(dag, outnode(stepID, stage.ID, o))).(*DAGItem), stepID, stage.ID, o)
+//@   loop 1 invariant (forall d any, k string :: old(indag(d, k)) ==> indag(d, k)) && (forall d any, t string, f string :: old(dep(d, t, f)) != "" ==> dep(d, t, f) == old(dep(d, t, f)))
+//
+//@ func (*executor).buildOutputProperties
+//@   requires dag != nil && stepID != ""
+//@   requires forall i int :: 0 <= i && i < len(typedLifecycle.Stages) ==> typedLifecycle.Stages[i].ID != "" && \
+//@        (forall o string :: indom(typedLifecycle.Stages[i].Outputs, o) ==> typedLifecycle.Stages[i].Outputs[o] != nil)
+//@   modifies ghost indag, ghost dep, ghost nodestatus
+//@   ensures [every-stage-gets-a-node] result1 == nil ==> (forall i int :: 0 <= i && i < len(typedLifecycle.Stages) ==> \
+//@        indag(dag, stagenode(stepID, typedLifecycle.Stages[i].ID)) && \
+//@        typeis(nodeitem(dagnode(dag, stagenode(stepID, typedLifecycle.Stages[i].ID))), *DAGItem) && \
+//@        stageItem(nodeitem(dagnode(dag, stagenode(stepID, typedLifecycle.Stages[i].ID))).(*DAGItem), stepID, typedLifecycle.Stages[i].ID))
+//@   ensures [every-declared-output-gets-a-node-below-its-stage] result1 == nil ==> (forall i int, o string :: 0 <= i && i < len(typedLifecycle.Stages) && \
+//@        indom(typedLifecycle.Stages[i].Outputs, o) && o != "" ==> \
+//@        indag(dag, outnode(stepID, typedLifecycle.Stages[i].ID, o)) && \
+//@        dep(dag, outnode(stepID, typedLifecycle.Stages[i].ID, o), stagenode(stepID, typedLifecycle.Stages[i].ID)) == "and")
+//@   ensures [nothing-is-removed] (forall d any, k string :: old(indag(d, k)) ==> indag(d, k)) && \
+//@        (forall d any, t string, f string :: old(dep(d, t, f)) != "" ==> dep(d, t, f) == old(dep(d, t, f)))
+//@   loop 1 invariant forall i int :: 0 <= i && i <= rangeidx ==> \
+//@        indag(dag, stagenode(stepID, typedLifecycle.Stages[i].ID)) && \
+//@        typeis(nodeitem(dagnode(dag, stagenode(stepID, typedLifecycle.Stages[i].ID))), *DAGItem) && \
+//@        stageItem(nodeitem(dagnode(dag, stagenode(stepID, typedLifecycle.Stages[i].ID))).(*DAGItem), stepID, typedLifecycle.Stages[i].ID)
+//@   loop 1 invariant forall i int, o string :: 0 <= i && i <= rangeidx && indom(typedLifecycle.Stages[i].Outputs, o) && o != "" ==> \
+//@        indag(dag, outnode(stepID, typedLifecycle.Stages[i].ID, o)) && \
+//@        dep(dag, outnode(stepID, typedLifecycle.Stages[i].ID, o), stagenode(stepID, typedLifecycle.Stages[i].ID)) == "and"
+//@   loop 1 invariant (forall d any, k string :: old(indag(d, k)) ==> indag(d, k)) && (forall d any, t string, f string :: old(dep(d, t, f)) != "" ==> dep(d, t, f) == old(dep(d, t, f)))
+//@   loop 1 invariant -1 <= rangeidx && rangeidx < len(typedLifecycle.Stages) && outputProperties != nil
+//
+// A stage node as preparation leaves it: the item names its step and stage, and its data (once set) is a
+// map from input field names to the raw field values.
+//@ pred stageNodeOK(dag any, s string, g string) = indag(dag, stagenode(s, g)) && typeis(nodeitem(dagnode(dag, stagenode(s, g))), *DAGItem) && \
+//@     stageItem(nodeitem(dagnode(dag, stagenode(s, g))).(*DAGItem), s, g) && \
+//@     (nodeitem(dagnode(dag, stagenode(s, g))).(*DAGItem).Data != nil ==> typeis(nodeitem(dagnode(dag, stagenode(s, g))).(*DAGItem).Data, map[any]any) && \
+//@         (forall k any :: indom(nodeitem(dagnode(dag, stagenode(s, g))).(*DAGItem).Data.(map[any]any), k) ==> typeis(k, string)))
+//@ pred lifecycleEdges(dag any, s string, st step.LifecycleStageWithSchema) = forall n string :: indom(st.NextStages, n) ==> \
+//@     dep(dag, stagenode(s, n), stagenode(s, st.ID)) == st.NextStages[n] && st.NextStages[n] != ""
+//
+//@ func (*executor).connectStepDependencies
+//@   opt init construction
+//@   requires e != nil && e.logger != nil && workflow != nil && dag != nil
+//@   requires forall s string :: indom(workflow.Steps, s) ==> typeis(workflow.Steps[s], map[any]any)
+//@   requires forall s string, i int :: indom(workflow.Steps, s) && 0 <= i && i < len(stepLifecycles[s].Stages) ==> stageNodeOK(dag, s, stepLifecycles[s].Stages[i].ID)
+//@   requires [dependency-types-are-not-empty] forall s string, i int :: indom(workflow.Steps, s) && 0 <= i && i < len(stepLifecycles[s].Stages) ==> (forall n string :: indom(stepLifecycles[s].Stages[i].NextStages, n) ==> stepLifecycles[s].Stages[i].NextStages[n] != "")
+//@   modifies ghost indag, ghost dep, ghost nodestatus, fields infer.OneOfExpression, fields infer.OptionalExpression, fields DAGItem
+//@   ensures [stages-of-a-step-are-ordered-as-its-lifecycle-says] result == nil ==> (forall s string, i int :: indom(workflow.Steps, s) && 0 <= i && i < len(stepLifecycles[s].Stages) ==> \
+//@        lifecycleEdges(dag, s, stepLifecycles[s].Stages[i]))
+//@   ensures [stage-nodes-keep-their-identity-and-get-field-maps] forall s string, i int :: indom(workflow.Steps, s) && 0 <= i && i < len(stepLifecycles[s].Stages) ==> stageNodeOK(dag, s, stepLifecycles[s].Stages[i].ID)
+//@   ensures [nothing-is-removed] (forall d any, k string :: old(indag(d, k)) ==> indag(d, k)) && \
+//@        (forall d any, t string, f string :: old(dep(d, t, f)) != "" ==> dep(d, t, f) == old(dep(d, t, f)))
+//@   loop 1 invariant forall s string, i int :: visited(s) && 0 <= i && i < len(stepLifecycles[s].Stages) ==> lifecycleEdges(dag, s, stepLifecycles[s].Stages[i])
+//@   loop 1 invariant forall s string, i int :: indom(workflow.Steps, s) && 0 <= i && i < len(stepLifecycles[s].Stages) ==> stageNodeOK(dag, s, stepLifecycles[s].Stages[i].ID)
+//@   loop 1 invariant (forall d any, k string :: old(indag(d, k)) ==> indag(d, k)) && (forall d any, t string, f string :: old(dep(d, t, f)) != "" ==> dep(d, t, f) == old(dep(d, t, f)))
+//@   loop 2 invariant forall s string, i int :: visited(s) && s != stepID && 0 <= i && i < len(stepLifecycles[s].Stages) ==> lifecycleEdges(dag, s, stepLifecycles[s].Stages[i])
+//@   loop 2 invariant forall i int :: 0 <= i && i <= rangeidx ==> lifecycleEdges(dag, stepID, lifecycle.Stages[i])
+//@   loop 2 invariant forall s string, i int :: indom(workflow.Steps, s) && 0 <= i && i < len(stepLifecycles[s].Stages) ==> stageNodeOK(dag, s, stepLifecycles[s].Stages[i].ID)
+//@   loop 2 invariant (forall d any, k string :: old(indag(d, k)) ==> indag(d, k)) && (forall d any, t string, f string :: old(dep(d, t, f)) != "" ==> dep(d, t, f) == old(dep(d, t, f)))
+//@   loop 2 invariant -1 <= rangeidx && rangeidx < len(lifecycle.Stages) && lifecycle == stepLifecycles[stepID] && indom(workflow.Steps, stepID) && visited(stepID)
+//@   loop 1 invariant forall s string :: visited(s) ==> indom(workflow.Steps, s)
+//@   loop 2 invariant forall s string :: visited(s) ==> indom(workflow.Steps, s)
+//@   loop 3 invariant forall s string :: visitedin(1, s) ==> indom(workflow.Steps, s)
+//@   loop 4 invariant forall s string :: visitedin(1, s) ==> indom(workflow.Steps, s)
+//@   loop 2 invariant forall i int :: 0 <= i && i < len(lifecycle.Stages) ==> (forall n string :: indom(lifecycle.Stages[i].NextStages, n) ==> lifecycle.Stages[i].NextStages[n] != "")
+//@   loop 3 invariant (forall n string :: indom(stage.NextStages, n) ==> stage.NextStages[n] != "") && -1 <= outeridx && outeridx + 1 < len(lifecycle.Stages) && stage == lifecycle.Stages[outeridx + 1]
+//@   loop 4 invariant (forall n string :: indom(stage.NextStages, n) ==> stage.NextStages[n] != "") && -1 <= outeridx && outeridx + 1 < len(lifecycle.Stages) && stage == lifecycle.Stages[outeridx + 1]
+//@   loop 3 invariant forall s string, i int :: visitedin(1, s) && s != stepID && 0 <= i && i < len(stepLifecycles[s].Stages) ==> lifecycleEdges(dag, s, stepLifecycles[s].Stages[i])
+//@   loop 3 invariant forall i int :: 0 <= i && i <= outeridx ==> lifecycleEdges(dag, stepID, lifecycle.Stages[i])
+//@   loop 3 invariant lifecycle == stepLifecycles[stepID] && indom(workflow.Steps, stepID) && visitedin(1, stepID)
+//@   loop 4 invariant forall s string, i int :: visitedin(1, s) && s != stepID && 0 <= i && i < len(stepLifecycles[s].Stages) ==> lifecycleEdges(dag, s, stepLifecycles[s].Stages[i])
+//@   loop 4 invariant forall i int :: 0 <= i && i <= outeridx ==> lifecycleEdges(dag, stepID, lifecycle.Stages[i])
+//@   loop 4 invariant lifecycle == stepLifecycles[stepID] && indom(workflow.Steps, stepID) && visitedin(1, stepID)
+//@   loop 3 invariant forall n string :: visited(n) ==> indom(stage.NextStages, n) && dep(dag, stagenode(stepID, n), stagenode(stepID, stage.ID)) == stage.NextStages[n]
+//@   loop 3 invariant (forall d any, k string :: old(indag(d, k)) ==> indag(d, k)) && (forall d any, t string, f string :: old(dep(d, t, f)) != "" ==> dep(d, t, f) == old(dep(d, t, f)))
+//@   loop 3 invariant currentStageNode != nil && nodedag(currentStageNode) == dag && nodeid(currentStageNode) == stagenode(stepID, stage.ID)
+//@   loop 4 invariant stageData != nil && (forall k any :: indom(stageData, k) ==> typeis(k, string))
+//@   loop 4 invariant (forall d any, k string :: old(indag(d, k)) ==> indag(d, k)) && (forall d any, t string, f string :: old(dep(d, t, f)) != "" ==> dep(d, t, f) == old(dep(d, t, f)))
+//@   loop 4 invariant currentStageNode != nil && nodedag(currentStageNode) == dag && nodeid(currentStageNode) == stagenode(stepID, stage.ID) && lifecycleEdges(dag, stepID, stage)
